@@ -178,6 +178,111 @@ def run_doc(case: dict) -> core.CaseResult:
     return res
 
 
+WRAPPER_DESCS = None
+
+
+def views_of(m: Any) -> list[str]:
+    from autobean_refactor.models import meta_item_internal as MI
+    from autobean_refactor.models.internal import interleaving_comments as IC, properties as PR, value_properties as VP
+    out = []
+    for attr, d in ops.descriptors(type(m)).items():
+        if isinstance(d, (PR.repeated_node_property, IC.repeated_node_with_interleaving_comments_property, VP.repeated_filtered_node_property,
+                          VP.repeated_string_property, MI.repeated_raw_meta_item_property, MI.repeated_meta_item_property)) or \
+                (isinstance(d, PR.cached_custom_property) and attr == 'values'):
+            out.append(attr)
+    return out
+
+
+def view_state(m: Any, attrs: list[str]) -> list:
+    out = []
+    for a in attrs:
+        try:
+            out.append((a, [tree.pr(x) if isinstance(x, M.RawModel) else repr(x) for x in getattr(m, a)]))
+        except Exception as e:  # noqa
+            out.append((a, f'raises {type(e).__name__}: {e}'))
+    return out
+
+
+def run_wrapper_copies(case: dict) -> core.CaseResult:
+    """copy.deepcopy of every list wrapper / view of every model (all views alive first); then one insertion, one deletion
+    through the copy and through the original: the other side's document and views must not change"""
+    res = core.CaseResult()
+    text, mode = case['text'], case.get('mode', True)
+    probe = docs.try_parse(text, M.File, mode)
+    if probe is None:
+        res.outcomes['rejected'] += 1
+        return res
+    for path, m0 in tree.walk(probe):
+        if isinstance(m0, (M.RawTokenModel, R.Repeated)):
+            continue
+        attrs = views_of(m0)
+        for attr in attrs:
+            for side in ('copy', 'original'):
+                for action in ('append', 'del0', 'insert0'):
+                    root = docs.try_parse(text, M.File, mode)
+                    m = tree.resolve(root, path)
+                    for a in attrs:
+                        len(getattr(m, a))            # every view alive
+                    w = getattr(m, attr)
+                    where = f'{text!r}: deepcopy({"/".join(path) or "root"}.{attr}), then {action} through the {side}: '
+                    sub = {'kind': 'wrapper-copy', 'text': text, 'mode': mode}
+                    try:
+                        cp = copy.deepcopy(w)
+                    except Exception as e:  # noqa
+                        res.fail(f'C11/deepcopy-of-view-raises[{attr}]', where + f'{type(e).__name__}: {e}', sub)
+                        return res
+                    res.transitions += 1
+                    try:
+                        same = list(cp) == list(w) and len(cp) == len(w)
+                    except Exception as e:  # noqa
+                        res.fail(f'C11/copied-view-unreadable[{attr}]', where + f'{type(e).__name__}: {e}', sub)
+                        return res
+                    if not same:
+                        res.fail(f'C11/copied-view-differs[{attr}]', where + 'the copy lists other elements than the original', sub)
+                        return res
+                    doc0, views0 = tree.pr(root), view_state(m, attrs)
+                    cp0 = [tree.pr(x) if isinstance(x, M.RawModel) else repr(x) for x in cp]
+                    target, other_is_copy = (cp, False) if side == 'copy' else (w, True)
+                    try:
+                        if action == 'del0':
+                            if len(target):
+                                del target[0]
+                        else:
+                            elems = list(target)
+                            if not elems:
+                                continue
+                            new = copy.deepcopy(elems[-1]) if isinstance(elems[-1], M.RawModel) else elems[-1]
+                            if action == 'append':
+                                target.append(new)
+                            else:
+                                target.insert(0, new)
+                    except Exception:  # noqa: refusals are C19's business
+                        continue
+                    res.transitions += 1
+                    if not other_is_copy:
+                        if tree.pr(root) != doc0 or view_state(m, attrs) != views0:
+                            res.fail(f'C11/edit-of-copied-view-changed-original[{attr}]',
+                                     where + f'the original document / its views changed: {view_state(m, attrs)} (was {views0})', sub)
+                            return res
+                    else:
+                        try:
+                            cp1 = [tree.pr(x) if isinstance(x, M.RawModel) else repr(x) for x in cp]
+                        except Exception as e:  # noqa
+                            cp1 = f'raises {type(e).__name__}: {e}'
+                        if cp1 != cp0:
+                            res.fail(f'C11/edit-of-original-changed-copied-view[{attr}]', where + f'the copy now lists {cp1} (was {cp0})', sub)
+                            return res
+                        # the original's own views must follow its own edit
+                        vs = view_state(m, attrs)
+                        if any(isinstance(x, str) for _, x in vs):
+                            res.fail(f'C11/original-views-broken-after-copy[{attr}]', where + f'views of the original: {vs}', sub)
+                            return res
+    h = core.h64(('wrapper-copies', text, mode))
+    res.states.add(h)
+    res.nontrivial.add(h)
+    return res
+
+
 def run_single(case: dict) -> core.CaseResult:
     """replay of one independence violation"""
     res = core.CaseResult()
@@ -209,6 +314,8 @@ def run_single(case: dict) -> core.CaseResult:
 
 
 def run_case(case: dict) -> core.CaseResult:
+    if case.get('kind') == 'wrapper-copy':
+        return run_wrapper_copies(case)
     if 'side' in case:
         return run_single(case)
     return run_doc(case)
@@ -244,5 +351,8 @@ def main(run: core.Run) -> None:
     run.run_cases(run_case, copies, 'copies of every model', chunk=100)
     run.run_cases(run_case, after_claims, 'copies after one claim/unclaim call', chunk=100)
     run.run_cases(run_case, edits, 'independence under edits', chunk=1)
+    wc = [{'kind': 'wrapper-copy', 'text': c['text'], 'mode': c['mode']} for c in docexp.corpus(docs.L_EDIT, 2, depth=1)]
+    wc += [{'kind': 'wrapper-copy', 'text': c['text'], 'mode': True} for c in docexp.class_cases(1)[::2]]
+    run.run_cases(run_case, wc, 'deep copies of list wrappers and views', chunk=2)
     run.bounds.update({'copy_docs': len(copies), 'after_claim_cases': len(after_claims), 'edit_docs': len(edits)})
     run.assumptions = ['independence is judged on full snapshots (text, token identities, tree signature, view tables)']
